@@ -36,7 +36,9 @@ SPEC = {
                    "tiny same-name / same-bucket / different-bucket programs and kills at every step (quick: a "
                    "deterministic sample of a quarter of n, thorough: all 3990 plans); two designated replays of the "
                    "known finding (witness4: duplicate walk beyond a stale mapping; witness-tries: ten remaps do "
-                   "not catch up, driven by a scheduling callback); two damaged-start scenarios (cyclic chain, small damaged limit; oracle-only). After "
+                   "not catch up, driven by a scheduling callback) and remap-twice (the file grows twice under a "
+                   "looking-up process, which must re-map twice and succeed); every error result comes with the "
+                   "number of mappings the call created and whether its limit CAS reserved a record; two damaged-start scenarios (cyclic chain, small damaged limit; oracle-only). After "
                    "EVERY step the real file is read back (os.ReadFile) and decoded by the harness's own decoder "
                    "(bucket walk + raw scan of the record area) and compared with the model stepped on the same "
                    "schedule: operation kind and file offset of the pending atomic operation, size, limit, every "
@@ -66,7 +68,9 @@ SPEC = {
                   "returned have nothing pending, a killed process at most its last increment), "
                   "C04_failures_classified (a call fails only for its own empty or over-long name, in the "
                   "stale-mapping class, or because the reservation would pass 4 GiB (errCorrupt of fix 633eed3): the cycle guards, writeEntryAt's, extend's and "
-                  "the corrupt-limit tests never fire), C04_nonblocking (a potential depending only "
+                  "the corrupt-limit tests never fire), C04_failure_shapes (FBeyond only after the process has reserved and written its record, FTries only "
+                  "after ten re-maps: the two shapes of the known finding are the only ways another process can fail "
+                  "a call), C04_nonblocking (a potential depending only "
                   "on the file and the process's own locals strictly decreases with each own step unless the call "
                   "completes, is raised by another process's step only if that step is a successful CAS and then by at "
                   "most 20 + 2*chain length; a process running alone from any reachable state finishes all its "
@@ -112,7 +116,7 @@ SPEC = {
         "marker, memmap wrapped to record mappings (harness/inject/internal/counter/zz_verif_conc.go, "
         "zz_verif_fileconc.go)",
     ],
-    "own_objects": ["theories/Props/C04.vo", "theories/Proofs/FileConcOracle.vo", "theories/Proofs/FileConcProgress.vo",
+    "own_objects": ["theories/Props/C04.vo", "theories/Proofs/FileConcShapes.vo", "theories/Proofs/FileConcOracle.vo", "theories/Proofs/FileConcProgress.vo",
                     "theories/Proofs/FileConcInv2.vo", "theories/Proofs/FileConcWitness.vo",
                     "theories/Proofs/FileConcThms.vo", "theories/Proofs/FileConcInv.vo",
                     "theories/Proofs/FileConcBase.vo", "theories/Model/FileConc.vo"],
